@@ -500,6 +500,27 @@ fn deep_pipeline(quick: bool) -> Vec<Scen> {
         sc.uniform = u;
         v.push(sc);
     }
+    // commands of one uniform framed size s, for every s in 5..=96: however many whole commands
+    // a buffer fill of the implementation holds (256 of 16 bytes in 4096, 128 of 64 in 8192, ...),
+    // some s makes that number hit a power of two exactly; in one giant read, and with the first
+    // read ending 3 bytes into a command
+    let m = if quick { 700 } else { 3000 };
+    for size in 5usize..=96 {
+        let mut cmds = Vec::new();
+        let mut exp = vec![auth_cb()];
+        for i in 0..m {
+            let mut text = format!("{:05}", i % 100_000).into_bytes();
+            text.resize(size - 5, b'0' + (i % 10) as u8);
+            text.truncate(size - 5);
+            let (c, cb) = small_cmd(KINDS[i % 3], &text);
+            cmds.push(c);
+            exp.push(cb);
+        }
+        let mut sc = Scen::new(format!("H + {} pipelined commands of {} framed bytes each, whole or with one cut 3 bytes into a command", m, size), Conv::new(cmds), exp);
+        let hs = sc.ends[0];
+        sc.sets = Some(vec![vec![], vec![hs], vec![hs + 3], vec![hs + size * 256 + 3], vec![hs, hs + size * 257 + 3]]);
+        v.push(sc);
+    }
     v
 }
 
